@@ -420,6 +420,8 @@ def run_check(prop: Prop, tier: str, seed: int) -> int:
     oracle_failures: list[tuple[Stream, dict, Any, str]] = []
     corr_mismatch: list[tuple[Stream, dict, Any, str]] = []
     validated = 0
+    from . import tripwire
+    moved = tripwire.changed()
     for stream in prop.streams:
         srng = random.Random(rng.random())
         cases = []
@@ -433,6 +435,14 @@ def run_check(prop: Prop, tier: str, seed: int) -> int:
                         cases.append(c["case"])
         ncorpus = len(cases)
         cases.extend(stream.gen(srng, tier))
+        if moved and tier == "quick":
+            # the source moved since the model was last validated: a second, differently seeded pass
+            seen = {json.dumps(c, sort_keys=True, default=str) for c in cases}
+            for c in stream.gen(random.Random(srng.random()), tier):
+                k = json.dumps(c, sort_keys=True, default=str)
+                if k not in seen:
+                    seen.add(k)
+                    cases.append(c)
         triples = []
         obs_list = []
         nt = 0
@@ -563,6 +573,7 @@ def run_check(prop: Prop, tier: str, seed: int) -> int:
         "exhaustive": all(s.exhaustive for s in prop.streams) if prop.streams else False,
         "known_findings_printed": known_lines,
         "phases_s": phases,
+        "tripwire_changed_functions": moved[:40],
     })
     coverage.update(extra)
     ev = {
